@@ -9,6 +9,7 @@ from_buffer lengths/aliasing, memmove overlaps (cdata / memoryview / bytes opera
 are checked the same way.
 """
 import os
+import re
 
 from lib import vlib
 from props import c19_regen
@@ -16,13 +17,21 @@ from props import c19_regen
 ID = "C19"
 
 
+GEN = {"copy": None}      # the copy primitive of mb_ass_slice as the translator read it ("Memcpy" / "Memmove")
+
+
 def regen(ctx):
     path = os.path.join(vlib.COQ, "C19", "Gen.v")
     try:
         src = open(os.path.join(vlib.REPO, "src", "c", "_cffi_backend.c")).read()
-        text = c19_regen.render(c19_regen.extract(src))
+        mb_src = open(os.path.join(vlib.REPO, "src", "c", "minibuffer.h")).read()
+        text = c19_regen.render(c19_regen.extract(src, mb_src))
     except (c19_regen.RegenError, OSError) as e:
+        # fail closed: the snapshot stays in place so that the other files still compile, but the run is
+        # reported as a broken obligation (the facts in Gen.v no longer describe this source)
         ctx.translator("C19/Gen.v", "fallback: %s" % e)
+        ctx.obligation_broken("C19/Gen.v regeneration (src/c/minibuffer.h, _cffi_backend.c): the source no longer "
+                              "has the shape the translator understands: %s" % e)
         text = None
     old = open(path).read() if os.path.exists(path) else None
     if text is not None:
@@ -33,9 +42,13 @@ def regen(ctx):
                 with open(path, "w") as f:
                     f.write(text)
             ctx.translator("C19/Gen.v", "regenerated")
-    vo = os.path.join(vlib.COQ, "C19", "Model.vo")
+    m = re.search(r"SCopy (Memcpy|Memmove) ", text if text is not None else (old or ""))
+    GEN["copy"] = m.group(1) if m else None
+    vo = os.path.join(vlib.COQ, "C19", "MbSem.vo")
     if not os.path.exists(vo) or os.path.getmtime(vo) < os.path.getmtime(path):
-        vlib.coq_make(["C19/Model.vo", "C19/Spec.vo"])
+        vlib.coq_make(["C19/Model.vo", "C19/Spec.vo", "C19/MbSem.vo"])
+
+
 M63 = 1 << 63
 
 
@@ -182,6 +195,38 @@ def gen_mm(rng):
     return c
 
 
+def gen_ov(rng):
+    """slice assignment whose right-hand side lives in the SAME memory as the destination window"""
+    m = rng.choice([8, 16, 24, 40, 96])
+    mem = bytes(rng.getrandbits(8) for _ in range(m))
+    off = rng.randrange(m // 2)
+    n = rng.randrange(2, m - off + 1)
+    a = rng.randrange(n)
+    cnt = rng.randrange(n - a + 1) if rng.random() < 0.85 else n - a
+    src = rng.choice(["buffer", "buffer", "memoryview", "cdata_slice", "cdataptr", "frombuf"])
+    slen = cnt
+    if src != "cdataptr" and rng.random() < 0.1:
+        slen = max(0, cnt + rng.choice([-1, 1]))
+    hi = m - max(slen, cnt)
+    if rng.random() < 0.8:                 # force an overlap (or adjacency)
+        s = max(0, min(hi, off + a + rng.choice([-5, -3, -2, -1, 0, 1, 2, 3, 5, cnt, -cnt])))
+    else:
+        s = rng.randrange(hi + 1)
+    return dict(kind="ov", mem=mem.hex(), off=off, n=n, a=a, b=a + cnt, src=src, s=s, slen=slen)
+
+
+def ov_expect(c):
+    """copy-through-a-temporary semantics (Python: w[a:b] = bytes(w2[...])): (outcome, memory, ranges overlap)"""
+    mem = bytearray.fromhex(c["mem"])
+    cnt = c["b"] - c["a"]
+    d = c["off"] + c["a"]
+    if c["src"] != "cdataptr" and c["slen"] != cnt:
+        return ["err", "ValueError"], bytes(mem), False
+    tmp = bytes(mem[c["s"]:c["s"] + cnt])
+    mem[d:d + cnt] = tmp
+    return ["done"], bytes(mem), cnt > 0 and d != c["s"] and abs(d - c["s"]) < cnt
+
+
 def generate(ctx):
     rng = ctx.rng
     big = ctx.tier_search == "thorough"
@@ -204,6 +249,9 @@ def generate(ctx):
             cases.append(c)
     cases += [gen_fb(rng) for _ in range(250 if not big else 2500)]
     cases += [gen_mm(rng) for _ in range(400 if not big else 4000)]
+    cases += [gen_ov(rng) for _ in range(150 if not big else 1500)]
+    # witness of the finding ass_slice_memcpy_overlap: ffi.buffer(p, 16)[0:8] = ffi.buffer(p + 2, 8)
+    cases.append(dict(kind="ov", mem="6162636465666768696a6b6c6d6e6f70", off=0, n=16, a=0, b=8, src="buffer", s=2, slen=8))
     # design witnesses
     cases.append(dict(kind="hist", backing="cdata", init="0a0b0c0d0e0f1011", off=2, n=4, ops=[
         ["get", ["i", -1]], ["get", ["s", -3, None, None]], ["set", ["s", 1, 3, None], ["bytearray", "0102"]],
@@ -390,6 +438,7 @@ def evaluate(ctx, cases):
         if out["sizes"].get(T) != size:
             ctx.obligation_broken("C19 type table: sizeof(%s) = %r, harness says %d" % (T, out["sizes"].get(T), size))
     hist, hist_owner, scalar, scalar_owner, mm, mm_owner, spec, spec_owner = [], [], [], [], [], [], [], []
+    ov, ov_owner = [], []
     for c, r in zip(cases, out["results"]):
         ctx.count(max(1, len(c.get("ops", []))))
         ctx.hist("kind", c["kind"])
@@ -510,6 +559,25 @@ def evaluate(ctx, cases):
             if lit:
                 mm.append(("memmove %s (%d) (%d) (%d)" % (zl(whole), d, soff, n), lit))
                 mm_owner.append(c)
+        elif c["kind"] == "ov":
+            want_out, want_mem, overlap = ov_expect(c)
+            o = r["out"]
+            ctx.hist("ov_overlap", overlap)
+            ctx.hist("ov_src", c["src"])
+            if o != want_out or bytes.fromhex(r["mem"]) != want_mem:
+                ctx.violation(c, ov_text(c) + ": %r, memory %s; evaluating the source first gives %r, memory %s"
+                              % (o, r["mem"], want_out, want_mem.hex()),
+                              "ass_slice_memcpy_overlap" if overlap and GEN["copy"] == "Memcpy" else None)
+                continue
+            ctx.nontrivial(("ov", c["mem"], c["off"], c["n"], c["a"], c["b"], c["src"], c["s"], c["slen"]))
+            cnt, dpos = c["b"] - c["a"], c["off"] + c["a"]
+            intersect = cnt > 0 and abs(dpos - c["s"]) < cnt      # dest == src included: undefined for memcpy too
+            if o == ["done"] and not (intersect and GEN["copy"] != "Memmove"):
+                # the regenerated copy primitive on aliasing operands (memcpy + overlap: undefined, no claim)
+                ov.append(("match copy_of gen_mb_ass_slice with Some f => copy_alias f %s (%d) (%d) (%d) | None => Err OutOfModel end"
+                           % (zl(bytes.fromhex(c["mem"])), c["off"] + c["a"], c["s"], c["b"] - c["a"]),
+                           "Ok %s" % zl(bytes.fromhex(r["mem"]))))
+                ov_owner.append(c)
         else:   # ffi.buffer size rules
             o = r["out"]
             k = {"array": "(CArray (%d))" % (c["len"] or 0), "pointer": "CPointer", "castptr": "CPointer",
@@ -542,8 +610,9 @@ def evaluate(ctx, cases):
             ("Spec.spec_run vs CPython bytearray", spec, spec_owner,
              "fun c => match c with (w, ops) => spec_run w ops end", "run_eqb"),
             ("from_buffer_length / buffer_size", scalar, scalar_owner, "fun r : res Z => r", "resz_eqb"),
-            ("memmove", mm, mm_owner, "fun r : res (list Z) => r", "resl_eqb")):
-        bad, outs, err = vlib.coq_mismatches(["C19.Types", "C19.Gen", "C19.Model", "C19.Spec"], fexpr, eqb, lst,
+            ("memmove", mm, mm_owner, "fun r : res (list Z) => r", "resl_eqb"),
+            ("copy_alias (aliasing slice sources)", ov, ov_owner, "fun r : res (list Z) => r", "resl_eqb")):
+        bad, outs, err = vlib.coq_mismatches(["C19.Types", "C19.Gen", "C19.Model", "C19.Spec", "C19.MbSem"], fexpr, eqb, lst,
                                              prelude="Open Scope Z_scope.",
                                              shard=250)
         if err:
@@ -555,6 +624,45 @@ def evaluate(ctx, cases):
         ctx.sample(c)
 
 
+def ov_text(c):
+    return ("p = %d bytes %s; ffi.buffer(p + %d, %d)[%d:%d] = <%s over p + %d, %d bytes>"
+            % (len(c["mem"]) // 2, c["mem"], c["off"], c["n"], c["a"], c["b"], c["src"], c["s"], c["slen"]))
+
+
+def evaluate_asan(ctx, cases):
+    """the aliasing-source stream on an AddressSanitizer build, one child per case: a sanitizer report
+    (memcpy-param-overlap, out-of-bounds) kills the child and is attributed to the case"""
+    sub = [c for c in cases if c["kind"] == "ov"]
+    sub = sub[-1:] + sub[:(60 if ctx.tier_search != "thorough" else 400)]
+    if not sub:
+        return
+    s = ctx.scratch(asan=True)
+    out, p = s.run_worker("c19_worker.py", dict(cases=sub, types=[], chunk=1), timeout=1800)
+    if out is None:
+        ctx.violation(sub[0], "C19 worker crashed on the ASan build (rc=%s): %s" % (p.returncode, (p.stderr or p.stdout)[-1500:]))
+        return
+    reports = (p.stderr or "")
+    for c, r in zip(sub, out["results"]):
+        ctx.count(1)
+        want_out, want_mem, overlap = ov_expect(c)
+        ctx.hist("asan_ov", "overlap" if overlap else "disjoint")
+        if "crash" in r:
+            is_overlap_report = "memcpy-param-overlap" in reports and "mb_ass_slice" in reports
+            key = "ass_slice_memcpy_overlap" if (overlap and GEN["copy"] == "Memcpy" and is_overlap_report) else None
+            ctx.violation(c, ov_text(c) + ": the interpreter is stopped by AddressSanitizer (%s); source and destination "
+                          "ranges %s" % ("memcpy-param-overlap in mb_ass_slice" if is_overlap_report else
+                                         "exit/signal %s: %s" % (r["crash"], reports[-400:]),
+                                         "overlap" if overlap else "do not overlap"), key)
+            continue
+        if "error" in r:
+            ctx.violation(c, "harness could not run the case on the ASan build: " + r["error"])
+            continue
+        if r["out"] != want_out or bytes.fromhex(r["mem"]) != want_mem:
+            ctx.violation(c, ov_text(c) + " (ASan build): %r, memory %s; evaluating the source first gives %r, memory %s"
+                          % (r["out"], r["mem"], want_out, want_mem.hex()),
+                          "ass_slice_memcpy_overlap" if overlap and GEN["copy"] == "Memcpy" else None)
+
+
 def run(ctx):
     ctx.cov["rule"] = ("hist: windows (offset, n) of 0..24-byte memories held by cdata / bytearray / array.array, 2-10 "
                        "operations each (get/set by int or slice with bounds and steps among None, small, negative, "
@@ -564,27 +672,49 @@ def run(ctx):
                        "for 9 item types (incl. size 0) x bytearray/bytes/array/memoryview/str/int of 0..24 bytes, "
                        "length, too-small rule, aliasing both ways; mm: memmove between cdata pointers, array views, "
                        "memoryviews and bytes over one 1..33-byte memory, half of them overlapping; size: ffi.buffer "
-                       "size rules. Non-trivial = every case with >= 1 operation; distinct by full case.")
+                       "size rules; ov: buf[a:b] = <ffi.buffer / memoryview / array-cdata slice / pointer / from_buffer over the "
+                       "SAME 8..96-byte memory>, 80% overlapping or adjacent ranges, vs copy-through-a-temporary, natively and "
+                       "(61 / 401 cases, one child each) on an ASan build. Non-trivial = every case with >= 1 operation; "
+                       "distinct by full case.")
     ctx.assumptions += [
-        "hand-written model C19/Model.v (minibuffer.h + PySlice_Unpack/AdjustIndices + size rules); tied by this run's "
-        "differential test",
+        "coq/C19/Gen.v regenerated on every run (fail closed): bodies of mb_item/mb_slice/mb_ass_item/mb_ass_slice "
+        "(src/c/minibuffer.h), direct_from_buffer's fast-path test, _fetch_as_buffer's view->len for cdata; the C19_gen_* "
+        "theorems are re-proved on the current text",
+        "hand-written parts of C19/Model.v (mb_subscript glue, PySlice_Unpack/AdjustIndices, size rules, memmove); tied by "
+        "this run's differential test",
         "C19/Spec.v states bytearray semantics; it is itself compared with CPython's bytearray through the oracle of this run",
         "C memmove copies as if through a temporary array (C11 7.24.2.2)",
         "readings recorded in DESIGN.md: step != 1 refused with TypeError, length-changing assignment with ValueError"]
-    evaluate(ctx, generate(ctx))
+    cases = generate(ctx)
+    evaluate(ctx, cases)
+    evaluate_asan(ctx, cases)
 
 
 MANIFEST = dict(
-    technique="Coq refinement proof (minibuffer model + CPython slice protocol refines a bytearray specification on the "
-              "window, frame outside; induction over histories) + differential correspondence against real bytearrays",
+    technique="Coq refinement proof (the four minibuffer.h slot functions, translated statement by statement from the "
+              "source on every run, + CPython slice protocol refine a bytearray specification on the window, frame "
+              "outside; induction over histories) + regenerated from_buffer/_fetch_as_buffer facts + differential "
+              "correspondence against real bytearrays, aliasing sources also under AddressSanitizer",
     text="Proved for every memory, window, and operation history (any Python ints/None as bounds and steps, any right-hand "
          "side): outcomes through ffi.buffer equal those of the same history on a bytearray holding the window, the "
          "window afterwards equals that bytearray, nothing outside the window changes, lengths never change "
-         "(C19_buffer_history, C19_buffer_frame); sources: bytes-like objects and array cdata (own byte length), pointer "
-         "cdata (length trusted: cffi's extension, specified separately); the spec is bytearray semantics minus "
-         "extended slices; from_buffer('T[]') has len//size items and 'T[k]' raises ValueError when "
-         "too small; memmove leaves the old source bytes in the destination for every overlap, the rest unchanged.",
-    note="Trusted: Coq kernel; hand model C19/Model.v and spec C19/Spec.v (both tied to the real objects by differential "
-         "testing against CPython bytearrays); C11 memmove semantics; CPython's buffer protocol. Theorems closed under the "
-         "global context.",
+         "(C19_buffer_history, C19_buffer_frame; C19_slice_bounds for PySlice_Unpack/AdjustIndices). REGENERATED into "
+         "C19/Gen.v (fail closed: an unrecognised shape is a broken obligation): the bodies of mb_item, mb_slice, "
+         "mb_ass_item, mb_ass_slice (index test, clamps, length test, exception classes, copy primitive/address/count); "
+         "each equals the model function for all inputs (C19_gen_mb_item, C19_gen_mb_slice, C19_gen_mb_ass_item, "
+         "C19_gen_mb_ass_slice) and the buffer object built from them refines the spec for every history "
+         "(C19_gen_buffer_history); the copy primitive is memmove, so sources aliasing the destination are copied as if "
+         "through a temporary for every overlap (C19_gen_ass_slice_copy_is_memmove, C19_gen_alias_copy_total; memcpy "
+         "only for disjoint ranges: C19_alias_copy_defined); the from_buffer fast-path test "
+         "(C19_from_buffer_fast_path_only_size1, C19_from_buffer_code_is_len_div_size, _code_matches_model; refuted "
+         "variant C19_char_flag_fast_path_refuted) and _fetch_as_buffer's view->len for cdata "
+         "(C19_fetch_len_generated_ok, C19_fetch_len_is_real_length, C19_cdata_source; refuted "
+         "C19_ct_size_length_refuted). Hand model: from_buffer('T[k]') ValueError rule, buffer_size, mb_subscript glue, "
+         "memmove (C19_memmove: old source bytes for every overlap, rest unchanged). Correspondence only: from_buffer "
+         "aliasing, memmove operand kinds, Spec vs CPython bytearray, b_memmove's call, explicit_size warning path.",
+    note="Trusted: Coq kernel; the statement language/interpreter C19/Types.v + MbSem.v and the hand parts of "
+         "C19/Model.v (mb_subscript glue, size rules, memmove) and spec C19/Spec.v (all tied to the real objects by "
+         "differential testing against CPython bytearrays); C11 memmove semantics; CPython's buffer protocol. Findings: "
+         "cdata_slice_source (fixed feea9b6), ass_slice_memcpy_overlap (fixed 2519df6; the ASan stream of aliasing "
+         "sources reports it again if memcpy returns). Theorems closed under the global context.",
     design_ref="DESIGN.md §4 C19")
